@@ -1,0 +1,239 @@
+//go:build verif
+
+// Machine-checked contracts of the Netmap contract (comment-only; read by the
+// verifier in /verif, ignored by every compiler because of the build tag).
+
+package netmap
+
+/*@
+module candidates
+props C07
+use common core
+dialect neovm
+
+// C07: the candidate set follows the add/update/remove state machine in both lists.
+// Exact whole-store postconditions: everything but the named keys is unchanged.
+
+pure ckey(k Bytes) Bytes  = "candidate" ++ k
+pure c2key(k Bytes) Bytes = "2" ++ k
+pred SameBut(s Store, t Store, a Bytes, b Bytes) = forall x Bytes {s.opt(x)} :: x != a && x != b ==> s.opt(x) == t.opt(x)
+
+func addToNetmap(ctx, publicKey, node)
+  ensures [C07] store.has(ckey(publicKey)) && store.get(ckey(publicKey)) == ser_Node(node)
+  ensures [C07] SameBut(store, old(store), ckey(publicKey), ckey(publicKey))
+  ensures [C07] notifs == old(notifs) ++ [AddPeerSuccess(publicKey)]
+
+func removeFromNetmap(ctx, key)
+  ensures [C07] !store.has(ckey(key)) && !store.has(c2key(key))
+  ensures [C07] SameBut(store, old(store), ckey(key), c2key(key))
+  ensures notifs == old(notifs)
+
+func updateNetmapState(ctx, key, state)
+  nofault given store.has(ckey(key)) || store.has(c2key(key))
+  ensures [C07] old(store).has(ckey(key)) || old(store).has(c2key(key))
+  ensures [C07] old(store).has(ckey(key)) ==> store.has(ckey(key))
+        && deser_Node(store.get(ckey(key))) == Node{deser_Node(old(store).get(ckey(key))).BLOB, state}
+  ensures [C07] !old(store).has(ckey(key)) ==> !store.has(ckey(key))
+  ensures [C07] old(store).has(c2key(key)) ==> store.has(c2key(key))
+        && deser_Node2(store.get(c2key(key))).State == state
+        && deser_Node2(store.get(c2key(key))).Key == deser_Node2(old(store).get(c2key(key))).Key
+        && deser_Node2(store.get(c2key(key))).Addresses == deser_Node2(old(store).get(c2key(key))).Addresses
+        && deser_Node2(store.get(c2key(key))).Attributes == deser_Node2(old(store).get(c2key(key))).Attributes
+  ensures [C07] !old(store).has(c2key(key)) ==> !store.has(c2key(key))
+  ensures [C07] SameBut(store, old(store), ckey(key), c2key(key))
+  ensures notifs == old(notifs)
+
+func updateCandidateState(ctx, publicKey, state)
+  nofault given state == 2 || ((state == 1 || state == 3) && (store.has(ckey(publicKey)) || store.has(c2key(publicKey))))
+  ensures [C07] state == 1 || state == 2 || state == 3
+  ensures [C07] state == 2 ==> !store.has(ckey(publicKey)) && !store.has(c2key(publicKey))
+  ensures [C07] state != 2 ==> (old(store).has(ckey(publicKey)) || old(store).has(c2key(publicKey)))
+        && store.has(ckey(publicKey)) == old(store).has(ckey(publicKey)) && store.has(c2key(publicKey)) == old(store).has(c2key(publicKey))
+  ensures [C07] state != 2 && old(store).has(ckey(publicKey)) ==>
+        deser_Node(store.get(ckey(publicKey))) == Node{deser_Node(old(store).get(ckey(publicKey))).BLOB, state}
+  ensures [C07] state != 2 && old(store).has(c2key(publicKey)) ==> deser_Node2(store.get(c2key(publicKey))).State == state
+        && deser_Node2(store.get(c2key(publicKey))).Key == deser_Node2(old(store).get(c2key(publicKey))).Key
+        && deser_Node2(store.get(c2key(publicKey))).Addresses == deser_Node2(old(store).get(c2key(publicKey))).Addresses
+        && deser_Node2(store.get(c2key(publicKey))).Attributes == deser_Node2(old(store).get(c2key(publicKey))).Attributes
+  ensures [C07] SameBut(store, old(store), ckey(publicKey), c2key(publicKey))
+  ensures [C07] notifs == old(notifs) ++ [UpdateStateSuccess(publicKey, state)]
+
+func UpdateState(state, publicKey)
+  nofault given len(publicKey) == 33 && W(publicKey) && W(alphabet()) && (state == 2 || ((state == 1 || state == 3) && (store.has(ckey(publicKey)) || store.has(c2key(publicKey)))))
+  ensures [C07] W(publicKey) && W(alphabet()) && len(publicKey) == 33
+  ensures [C07] state == 1 || state == 2 || state == 3
+  ensures [C07] state == 2 ==> !store.has(ckey(publicKey)) && !store.has(c2key(publicKey))
+  ensures [C07] state != 2 ==> (old(store).has(ckey(publicKey)) || old(store).has(c2key(publicKey)))
+        && store.has(ckey(publicKey)) == old(store).has(ckey(publicKey)) && store.has(c2key(publicKey)) == old(store).has(c2key(publicKey))
+  ensures [C07] state != 2 && old(store).has(ckey(publicKey)) ==>
+        deser_Node(store.get(ckey(publicKey))) == Node{deser_Node(old(store).get(ckey(publicKey))).BLOB, state}
+  ensures [C07] state != 2 && old(store).has(c2key(publicKey)) ==> deser_Node2(store.get(c2key(publicKey))).State == state
+        && deser_Node2(store.get(c2key(publicKey))).Key == deser_Node2(old(store).get(c2key(publicKey))).Key
+  ensures [C07] SameBut(store, old(store), ckey(publicKey), c2key(publicKey))
+  ensures [C07] notifs == old(notifs) ++ [UpdateStateSuccess(publicKey, state)]
+
+func UpdateStateIR(state, publicKey)
+  nofault given W(alphabet()) && (state == 2 || ((state == 1 || state == 3) && (store.has(ckey(publicKey)) || store.has(c2key(publicKey)))))
+  ensures [C07] W(alphabet())
+  ensures [C07] state == 1 || state == 2 || state == 3
+  ensures [C07] state == 2 ==> !store.has(ckey(publicKey)) && !store.has(c2key(publicKey))
+  ensures [C07] state != 2 ==> (old(store).has(ckey(publicKey)) || old(store).has(c2key(publicKey)))
+  ensures [C07] SameBut(store, old(store), ckey(publicKey), c2key(publicKey))
+  ensures [C07] notifs == old(notifs) ++ [UpdateStateSuccess(publicKey, state)]
+
+func DeleteNode(pkey)
+  nofault given len(pkey) == 33 && W(alphabet())
+  ensures [C07] W(alphabet()) && len(pkey) == 33
+  ensures [C07] !store.has(ckey(pkey)) && !store.has(c2key(pkey))
+  ensures [C07] SameBut(store, old(store), ckey(pkey), c2key(pkey))
+  ensures [C07] notifs == old(notifs) ++ [UpdateStateSuccess(pkey, 2)]
+
+func AddPeer(nodeInfo)
+  ensures [C07] W(nodeInfo[2:35]) && W(alphabet())
+  ensures [C07] store.has(ckey(nodeInfo[2:35])) && store.get(ckey(nodeInfo[2:35])) == ser_Node(Node{nodeInfo, 1})
+  ensures [C07] SameBut(store, old(store), ckey(nodeInfo[2:35]), ckey(nodeInfo[2:35]))
+  ensures [C07] notifs == old(notifs) ++ [AddPeerSuccess(nodeInfo[2:35])]
+
+func AddPeerIR(nodeInfo)
+  ensures [C07] W(alphabet())
+  ensures [C07] store.has(ckey(nodeInfo[2:35])) && store.get(ckey(nodeInfo[2:35])) == ser_Node(Node{nodeInfo, 1})
+  ensures [C07] SameBut(store, old(store), ckey(nodeInfo[2:35]), ckey(nodeInfo[2:35]))
+  ensures [C07] notifs == old(notifs) ++ [AddPeerSuccess(nodeInfo[2:35])]
+
+func AddNode(n)
+  ensures [C07] n.State == 1 && len(n.Key) == 33 && W(n.Key) && W(alphabet())
+  ensures [C07] store.has(c2key(n.Key)) && store.get(c2key(n.Key)) == ser_Node2(n)
+  ensures [C07] SameBut(store, old(store), c2key(n.Key), c2key(n.Key))
+  ensures [C07] notifs == old(notifs) ++ [AddNode(n.Key, n.Addresses, n.Attributes)]
+@*/
+
+/*@
+module ring
+props C08
+use common core
+dialect neovm
+
+// C08: ring of the last N legacy snapshots and the per-epoch structured lists.
+
+pure slotkey(j Int) Bytes = "snapshot_" ++ byte(j)
+pure isslot(x Bytes) Bool = prefix("snapshot_", x) && len(x) == 10
+pure N(s Store) Int  = b2i(s.get("snapshotCount"))
+pure id(s Store) Int = b2i(s.get("snapshotCurrent"))
+pure C(s Store) Int  = b2i(s.get("snapshotEpoch"))
+ufun be4(e Int) Bytes
+pure pkey(e Int) Bytes = "p" ++ be4(e)
+axiom be4len: forall e Int {be4(e)} :: len(be4(e)) == 4
+
+func getSnapshotCount(ctx) (r)
+  pure
+  ensures r == N(store)
+
+func Epoch() (r)
+  pure
+  ensures r == C(store)
+
+func moveSnapshot(ctx, from, to)
+  ensures old(store).has(slotkey(from))
+  ensures store.opt(slotkey(to)) == old(store).opt(slotkey(from))
+  ensures forall x Bytes {store.opt(x)} :: x != slotkey(to) ==> store.opt(x) == old(store).opt(x)
+
+func dropNetmap(ctx, epoch)
+  trusted
+  ensures forall x Bytes {store.opt(x)} :: prefix(pkey(epoch), x) ==> !store.has(x)
+  ensures forall x Bytes {store.opt(x)} :: !prefix(pkey(epoch), x) ==> store.opt(x) == old(store).opt(x)
+
+func UpdateSnapshotCount(count)
+  requires store.has("snapshotCount") && store.has("snapshotCurrent") && store.has("snapshotEpoch")
+  requires 1 <= N(store) && N(store) <= 255 && 0 <= id(store) && id(store) < N(store) && count <= 255
+  requires 0 <= C(store)
+  requires forall e Int, x Bytes {store.opt(pkey(e) ++ x)} :: e <= C(store) - N(store) ==> !store.has(pkey(e) ++ x)
+  ensures W(alphabet())
+  ensures N(store) == count && count != old(N(store)) && C(store) == old(C(store))
+  // any accepted count leaves the contract able to tick again
+  ensures [C08] N(store) >= 1
+  ensures [C08] 0 <= id(store) && id(store) < count
+  // the most recent min(old, new) maps are preserved unchanged
+  ensures [C08] forall d Int :: 0 <= d && d < count && d < old(N(store)) ==>
+        store.opt(slotkey((id(store) - d + count) % count)) == old(store).opt(slotkey((old(id(store)) - d + old(N(store))) % old(N(store))))
+  // nothing older than the new window leaks
+  ensures [C08] forall e Int, x Bytes {store.opt(pkey(e) ++ x)} :: e <= C(store) - count ==> !store.has(pkey(e) ++ x)
+  loop 0
+    invariant lower - 1 <= k && k <= count - 1
+    invariant forall j Int {store.opt(slotkey(j))} :: k < j && j <= count - 1 ==> store.opt(slotkey(j)) == entry(store).opt(slotkey(j - diff))
+    invariant forall x Bytes {store.opt(x)} :: !(isslot(x) && k < x[9] && x[9] <= count - 1) ==> store.opt(x) == entry(store).opt(x)
+  loop 1
+    invariant start <= k
+    invariant forall j Int {store.opt(slotkey(j))} :: start <= j && j < k ==> store.opt(slotkey(j)) == entry(store).opt(slotkey(j + step))
+    invariant forall x Bytes {store.opt(x)} :: !(isslot(x) && start <= x[9] && x[9] < k) ==> store.opt(x) == entry(store).opt(x)
+  loop 2
+    invariant delStart <= k && (k <= delFinish || k == delStart)
+    invariant forall x Bytes {store.opt(x)} :: isslot(x) && delStart <= x[9] && x[9] < k ==> !store.has(x)
+    invariant forall x Bytes {store.opt(x)} :: !(isslot(x) && delStart <= x[9] && x[9] < k) ==> store.opt(x) == entry(store).opt(x)
+  loop 3
+    invariant curEpoch - oldCount + 1 <= k
+    invariant forall e Int, x Bytes {store.opt(pkey(e) ++ x)} :: curEpoch - oldCount + 1 <= e && e < k ==> !store.has(pkey(e) ++ x)
+    invariant forall x Bytes {store.opt(x)} :: store.has(x) ==> store.opt(x) == entry(store).opt(x)
+    invariant forall x Bytes {store.opt(x)} :: !prefix("p", x) ==> store.opt(x) == entry(store).opt(x)
+@*/
+
+/*@
+module tick
+props C06
+use common core
+dialect neovm
+
+// C06: the tick calls newEpoch(epoch) exactly once on every subscriber, in key (= subscription) order,
+// and changes nothing else while doing so.
+func cleanup(ctx, epoch)
+  ensures [C06] store == old(store) && notifs == old(notifs)
+  ensures [C06] xcalls("newEpoch").len == old(xcalls("newEpoch")).len + cnt(old(store), "e")
+  ensures [C06] forall j Int {xcalls("newEpoch")[old(xcalls("newEpoch")).len + j]} :: 0 <= j && j < cnt(old(store), "e") ==>
+         xcalls("newEpoch")[old(xcalls("newEpoch")).len + j] == ev_call_newEpoch(skey(old(store), "e", j)[2:], "newEpoch", epoch)
+  loop 0
+    invariant store == old(store) && notifs == old(notifs)
+    invariant xcalls("newEpoch").len == old(xcalls("newEpoch")).len + $it.pos
+    invariant forall j Int {$it.key(j)} :: 0 <= j && j < $it.pos ==>
+         xcalls("newEpoch")[old(xcalls("newEpoch")).len + j] == ev_call_newEpoch($it.key(j)[2:], "newEpoch", epoch)
+@*/
+
+/*@
+module be4
+props C06 C08
+dialect neovm
+
+// fourBytesBE: the four-byte big-endian key fragment of an epoch. i2b is the VM's minimal little-endian
+// two's-complement integer encoding (definitional axiom, A4; checked against the real VM by the conformance run).
+pure enc(x Int) Bytes = x == 0 ? "" :
+      (x < 128 ? byte(x) :
+      (x < 32768 ? byte(x % 256) ++ byte(x / 256) :
+      (x < 8388608 ? byte(x % 256) ++ byte((x / 256) % 256) ++ byte(x / 65536) :
+      (x < 2147483648 ? byte(x % 256) ++ byte((x / 256) % 256) ++ byte((x / 65536) % 256) ++ byte(x / 16777216) :
+        byte(x % 256) ++ byte((x / 256) % 256) ++ byte((x / 65536) % 256) ++ byte((x / 16777216) % 256) ++ byte(x / 4294967296)))))
+pure encneg(x Int) Bytes = x >= 0 - 128 ? byte(256 + x) : byte((65536 + x) % 256) ++ byte((65536 + x) / 256)
+axiom i2bdef:    forall x Int {i2b(x)} :: 0 <= x && x < 4294967296 ==> i2b(x) == enc(x)
+axiom i2bdefneg: forall x Int {i2b(x)} :: 0 - 32768 <= x && x < 0 ==> i2b(x) == encneg(x)
+
+pure be4(e Int) Bytes = byte(e / 16777216) ++ byte((e / 65536) % 256) ++ byte((e / 256) % 256) ++ byte(e % 256)
+pure fbe(e Int) Bytes = e >= 0 ? be4(e) : (e >= 0 - 128 ? be4(256 + e) : be4(65536 + e))
+
+func fourBytesBE(num) (r)
+  pure
+  ensures [C06,C08] len(r) == 4 && !isnil(r)
+  // one clause per length class of the integer encoding (keeps each query small)
+  ensures [C06,C08] num == 0 ==> r == fbe(num)
+  ensures [C06,C08] 0 < num && num < 128 ==> r == fbe(num)
+  ensures [C06,C08] 128 <= num && num < 32768 ==> r == fbe(num)
+  ensures [C06,C08] 32768 <= num && num < 8388608 ==> r == fbe(num)
+  ensures [C06,C08] 8388608 <= num && num < 2147483648 ==> r == fbe(num)
+  ensures [C06,C08] 2147483648 <= num && num < 4294967296 ==> r == fbe(num)
+  ensures [C06,C08] 0 - 128 <= num && num < 0 ==> r == fbe(num)
+  ensures [C06,C08] 0 - 32768 <= num && num < 0 - 128 ==> r == fbe(num)
+
+// distinct epochs have distinct key fragments (so per-epoch lists never collide)
+lemma be4Bytes [C06,C08]: forall a Int, b Int :: 0 <= a && a < 4294967296 && 0 <= b && b < 4294967296 && be4(a) == be4(b) ==>
+      a / 16777216 == b / 16777216 && (a / 65536) % 256 == (b / 65536) % 256 && (a / 256) % 256 == (b / 256) % 256 && a % 256 == b % 256
+lemma bytesInjective [C06,C08]: forall a Int, b Int :: 0 <= a && a < 4294967296 && 0 <= b && b < 4294967296 &&
+      a / 16777216 == b / 16777216 && (a / 65536) % 256 == (b / 65536) % 256 && (a / 256) % 256 == (b / 256) % 256 && a % 256 == b % 256 ==> a == b
+// the fragment computed for a (small) negative number is that of a non-negative epoch at least 128
+lemma fbeNegative [C08]: forall e Int :: 0 - 254 <= e && e < 0 ==> fbe(e) == be4(e >= 0 - 128 ? 256 + e : 65536 + e) && (e >= 0 - 128 ? 256 + e : 65536 + e) >= 128
+@*/
